@@ -44,6 +44,11 @@ def gen_mpmc(rng, tier):
                     nxt[0] += 1
                 ops = ops[:maxops]
             threads.append(",".join(ops))
+        # late joiners: some threads publish their hazard-pointer record only when they start
+        # running, racing the registration with the scans and pops of the others
+        if rng.random() < 0.3:
+            for t in rng.sample(range(nt), rng.randrange(1, nt)):
+                threads[t] = "J," + threads[t]
         cases.append({"args": [pool, scan_every, "|".join(threads)], "env": sched_env(rng)})
     return cases
 
@@ -63,6 +68,7 @@ def post_mpmc(log_path, case):
 
 SPEC = {
     "C13": {
+        "extra_props": ("QueueHist",),
         "parts": [{"name": "mpmc", "harness": "mpmc", "model": "Mpmc", "gen": gen_mpmc, "post": post_mpmc}],
         "trusted_base": [
             "composition assumption: hazard pointers — a node is reclaimed (gc callback) only if it was retired and "
